@@ -774,66 +774,101 @@ fn panic_msg(pl: Box<dyn std::any::Any + Send>) -> String {
     }
 }
 
-/// The element-wise sums the bulk helpers must agree with, over `n_adaptors`
-/// iterator adaptors.
-fn bulk_checks<T: Gen>(st: &mut St, xs: &[T], hs: &[usize], name: &str) {
-    let idx_even: Vec<usize> = (0..xs.len()).filter(|i| i % 2 == 0).collect();
-    let sum = |ix: &[usize]| -> usize { ix.iter().map(|i| hs[*i]).sum() };
-    let all: Vec<usize> = (0..xs.len()).collect();
-    let rev: Vec<usize> = all.iter().rev().copied().collect();
-    let skip1: Vec<usize> = all.iter().skip(1).copied().collect();
-    let take1: Vec<usize> = all.iter().take(1).copied().collect();
-    let chain: Vec<usize> = all.iter().chain(all.iter()).copied().collect();
-    let vs = size_of::<T>();
-    macro_rules! eq {
-        ($what:expr, $got:expr, $want:expr) => {{
-            st.evaluations += 1;
-            progress(|| format!("{} on a list of {} instances of {}", $what, xs.len(), name));
-            match catch_unwind(AssertUnwindSafe(|| $got)) {
-                Ok(g) => {
-                    let w = $want;
-                    if g != w {
-                        st.v("C08", "C08.bulk", name, format!("{} = {} but the element-wise sum is {}", $what, g, w));
-                    }
-                }
-                Err(pl) => st.v("C08", "C08.total", name, format!("{} panicked: {}", $what, panic_msg(pl))),
-            }
-        }};
+/// One bulk-helper evaluation: the generic part only computes; judging and
+/// reporting is done in non-generic code (the catalogue instantiates this for
+/// thousands of types).
+type BulkOut = Vec<(&'static str, u8, Result<usize, String>)>;
+
+thread_local! {
+    static BULK_CTX: std::cell::RefCell<String> = const { std::cell::RefCell::new(String::new()) };
+}
+
+fn run_bulk_named(what: &'static str, f: impl FnOnce() -> usize) -> Result<usize, String> {
+    // the watchdog names the helper x adaptor being evaluated
+    progress(|| BULK_CTX.with(|c| format!("{} on {}", what, c.borrow())));
+    catch_unwind(AssertUnwindSafe(f)).map_err(panic_msg)
+}
+
+/// expectation selectors: 0 all, 1 reversed, 2 even indices, 3 skip 1, 4 take 1, 5 chain (twice), 6 empty;
+/// +10: value sizes (count x size_of)
+fn bulk_values<T: Gen>(xs: &[T], light: bool) -> BulkOut {
+    let mut o: BulkOut = Vec::with_capacity(24);
+    o.push(("heap_size_sum_iter(iter)", 0, run_bulk_named("heap_size_sum_iter(iter)", || T::heap_size_sum_iter(|| xs.iter()))));
+    o.push(("heap_size_sum_iter(chain)", 5, run_bulk_named("heap_size_sum_iter(chain)", || T::heap_size_sum_iter(|| xs.iter().chain(xs.iter())))));
+    o.push(("heap_size_sum_exact_size_iter(iter)", 0, run_bulk_named("heap_size_sum_exact_size_iter(iter)", || T::heap_size_sum_exact_size_iter(|| xs.iter()))));
+    o.push(("heap_size_sum_exact_size_iter(skip 1)", 3, run_bulk_named("heap_size_sum_exact_size_iter(skip 1)", || T::heap_size_sum_exact_size_iter(|| xs.iter().skip(1)))));
+    o.push(("value_size_sum_iter(iter)", 10, run_bulk_named("value_size_sum_iter(iter)", || T::value_size_sum_iter(xs.iter()))));
+    o.push(("value_size_sum_exact_size_iter(iter)", 10, run_bulk_named("value_size_sum_exact_size_iter(iter)", || T::value_size_sum_exact_size_iter(xs.iter()))));
+    if light {
+        return o;
     }
-    // general iterators
-    eq!("heap_size_sum_iter(iter)", T::heap_size_sum_iter(|| xs.iter()), sum(&all));
-    eq!("heap_size_sum_iter(rev)", T::heap_size_sum_iter(|| xs.iter().rev()), sum(&rev));
-    eq!(
-        "heap_size_sum_iter(filter even index)",
-        T::heap_size_sum_iter(|| xs.iter().enumerate().filter(|(i, _)| i % 2 == 0).map(|(_, x)| x)),
-        sum(&idx_even)
-    );
-    eq!("heap_size_sum_iter(skip 1)", T::heap_size_sum_iter(|| xs.iter().skip(1)), sum(&skip1));
-    eq!("heap_size_sum_iter(take 1)", T::heap_size_sum_iter(|| xs.iter().take(1)), sum(&take1));
-    eq!("heap_size_sum_iter(chain)", T::heap_size_sum_iter(|| xs.iter().chain(xs.iter())), sum(&chain));
-    eq!("heap_size_sum_iter(map identity)", T::heap_size_sum_iter(|| xs.iter().map(|x| x)), sum(&all));
-    eq!("heap_size_sum_iter(empty)", T::heap_size_sum_iter(|| xs[..0].iter()), 0);
-    // exact-size iterators
-    eq!("heap_size_sum_exact_size_iter(iter)", T::heap_size_sum_exact_size_iter(|| xs.iter()), sum(&all));
-    eq!("heap_size_sum_exact_size_iter(rev)", T::heap_size_sum_exact_size_iter(|| xs.iter().rev()), sum(&rev));
-    eq!("heap_size_sum_exact_size_iter(skip 1)", T::heap_size_sum_exact_size_iter(|| xs.iter().skip(1)), sum(&skip1));
-    eq!("heap_size_sum_exact_size_iter(take 1)", T::heap_size_sum_exact_size_iter(|| xs.iter().take(1)), sum(&take1));
-    eq!("heap_size_sum_exact_size_iter(map identity)", T::heap_size_sum_exact_size_iter(|| xs.iter().map(|x| x)), sum(&all));
-    eq!("heap_size_sum_exact_size_iter(empty)", T::heap_size_sum_exact_size_iter(|| xs[..0].iter()), 0);
-    // value sizes
-    eq!("value_size_sum_iter(iter)", T::value_size_sum_iter(xs.iter()), vs * xs.len());
-    eq!(
-        "value_size_sum_iter(filter even index)",
-        T::value_size_sum_iter(xs.iter().enumerate().filter(|(i, _)| i % 2 == 0).map(|(_, x)| x)),
-        vs * idx_even.len()
-    );
-    eq!("value_size_sum_iter(chain)", T::value_size_sum_iter(xs.iter().chain(xs.iter())), vs * 2 * xs.len());
-    eq!("value_size_sum_exact_size_iter(iter)", T::value_size_sum_exact_size_iter(xs.iter()), vs * xs.len());
-    eq!("value_size_sum_exact_size_iter(skip 1)", T::value_size_sum_exact_size_iter(xs.iter().skip(1)), vs * skip1.len());
-    eq!("value_size_sum_exact_size_iter(rev)", T::value_size_sum_exact_size_iter(xs.iter().rev()), vs * xs.len());
+    o.push(("heap_size_sum_iter(rev)", 1, run_bulk_named("heap_size_sum_iter(rev)", || T::heap_size_sum_iter(|| xs.iter().rev()))));
+    o.push(("heap_size_sum_iter(filter even index)", 2, run_bulk_named("heap_size_sum_iter(filter even index)", || T::heap_size_sum_iter(|| xs.iter().enumerate().filter(|(i, _)| i % 2 == 0).map(|(_, x)| x))),
+    ));
+    o.push(("heap_size_sum_iter(skip 1)", 3, run_bulk_named("heap_size_sum_iter(skip 1)", || T::heap_size_sum_iter(|| xs.iter().skip(1)))));
+    o.push(("heap_size_sum_iter(take 1)", 4, run_bulk_named("heap_size_sum_iter(take 1)", || T::heap_size_sum_iter(|| xs.iter().take(1)))));
+    o.push(("heap_size_sum_iter(map identity)", 0, run_bulk_named("heap_size_sum_iter(map identity)", || T::heap_size_sum_iter(|| xs.iter().map(|x| x)))));
+    o.push(("heap_size_sum_iter(empty)", 6, run_bulk_named("heap_size_sum_iter(empty)", || T::heap_size_sum_iter(|| xs[..0].iter()))));
+    o.push(("heap_size_sum_exact_size_iter(rev)", 1, run_bulk_named("heap_size_sum_exact_size_iter(rev)", || T::heap_size_sum_exact_size_iter(|| xs.iter().rev()))));
+    o.push(("heap_size_sum_exact_size_iter(take 1)", 4, run_bulk_named("heap_size_sum_exact_size_iter(take 1)", || T::heap_size_sum_exact_size_iter(|| xs.iter().take(1)))));
+    o.push(("heap_size_sum_exact_size_iter(map identity)", 0, run_bulk_named("heap_size_sum_exact_size_iter(map identity)", || T::heap_size_sum_exact_size_iter(|| xs.iter().map(|x| x)))));
+    o.push(("heap_size_sum_exact_size_iter(empty)", 6, run_bulk_named("heap_size_sum_exact_size_iter(empty)", || T::heap_size_sum_exact_size_iter(|| xs[..0].iter()))));
+    o.push(("value_size_sum_iter(filter even index)", 12, run_bulk_named("value_size_sum_iter(filter even index)", || T::value_size_sum_iter(xs.iter().enumerate().filter(|(i, _)| i % 2 == 0).map(|(_, x)| x))),
+    ));
+    o.push(("value_size_sum_iter(chain)", 15, run_bulk_named("value_size_sum_iter(chain)", || T::value_size_sum_iter(xs.iter().chain(xs.iter())))));
+    o.push(("value_size_sum_exact_size_iter(skip 1)", 13, run_bulk_named("value_size_sum_exact_size_iter(skip 1)", || T::value_size_sum_exact_size_iter(xs.iter().skip(1)))));
+    o.push(("value_size_sum_exact_size_iter(rev)", 11, run_bulk_named("value_size_sum_exact_size_iter(rev)", || T::value_size_sum_exact_size_iter(xs.iter().rev()))));
+    o
+}
+
+/// The element-wise sums the bulk helpers must agree with (non-generic).
+fn bulk_judge(st: &mut St, out: BulkOut, hs: &[usize], vs: usize, name: &str) {
+    let n = hs.len();
+    let all: Vec<usize> = (0..n).collect();
+    let pick = |sel: u8| -> Vec<usize> {
+        match sel % 10 {
+            0 => all.clone(),
+            1 => all.iter().rev().copied().collect(),
+            2 => all.iter().copied().filter(|i| i % 2 == 0).collect(),
+            3 => all.iter().skip(1).copied().collect(),
+            4 => all.iter().take(1).copied().collect(),
+            5 => all.iter().chain(all.iter()).copied().collect(),
+            _ => vec![],
+        }
+    };
+    for (what, sel, got) in out {
+        st.evaluations += 1;
+        progress(|| format!("{} on a list of {} instances of {}", what, n, name));
+        let ix = pick(sel);
+        let want = if sel >= 10 { vs * ix.len() } else { ix.iter().map(|i| hs[*i]).sum() };
+        match got {
+            Ok(g) => {
+                if g != want {
+                    st.v("C08", "C08.bulk", name, format!("{} = {} but the element-wise sum is {}", what, g, want));
+                }
+            }
+            Err(msg) => st.v("C08", "C08.total", name, format!("{} panicked: {}", what, msg)),
+        }
+    }
+}
+
+fn bulk_checks<T: Gen>(st: &mut St, xs: &[T], hs: &[usize], name: &str, light: bool) {
+    // the watchdog names what is being evaluated
+    BULK_CTX.with(|c| *c.borrow_mut() = format!("a list of {} instances of {}", xs.len(), name));
+    let out = bulk_values::<T>(xs, light);
+    bulk_judge(st, out, hs, size_of::<T>(), name);
 }
 
 pub fn check_type<T: Gen>(st: &mut St) {
+    check_type_x::<T>(st, false)
+}
+
+/// the deep catalogue evaluates six of the twenty bulk-helper x adaptor combinations per type
+pub fn check_type_deep<T: Gen>(st: &mut St) {
+    check_type_x::<T>(st, true)
+}
+
+fn check_type_x<T: Gen>(st: &mut St, light: bool) {
     let name = tyname::<T>();
     st.types += 1;
     let n = T::count();
@@ -888,7 +923,7 @@ pub fn check_type<T: Gen>(st: &mut St) {
         hs.push(heap);
     }
     if xs.len() == n {
-        bulk_checks::<T>(st, &xs, &hs, &name);
+        bulk_checks::<T>(st, &xs, &hs, &name, light);
     }
 }
 
